@@ -27,6 +27,18 @@ CHECKS = {
                 text="decrypt(encrypt(b)) and encrypt(decrypt(b)) with the entire subkey array and the block as free symbols must normalise to b, for 3 sizes, both orders, unrolled and no_unroll builds. The laws x+k-k=x, x^y^y=x, rotr(rotl(x,r),r)=x cancel round by round.",
                 note="Trusted: normalisation laws, core models. Subkeys are free symbols, so the result holds for every key and tweak.",
                 technique="value-graph normalisation: composition of the two MIR bodies reduces to the identity"),
+    "C14": dict(level=TV, design="3/C14",
+                text="refill4 and refill are evaluated through their run-time dispatch on a symbolic state (all arms followed, joined by if-then-else over free CPU-feature symbols) for double-round counts 0..10 (thorough; quick: 0,1,4,10) on the x86 and portable builds; outputs must equal the ChaCha block function at counter+0..3 with a 64-bit counter add that never touches the stream-id words, final states counter+4 / counter+1, and four refills must equal one refill4 in bytes and state. Operand-dependent overflow assertions are violations.",
+                note="Trusted: spec/chacha.py (RFC 7539 vectors), intrinsic models, normalisation laws. Double-round counts are enumerated over the property's stated domain 0..=10, not treated symbolically. Big-endian twins of add_pos/d0123 are cfg'd out here and not analysed.",
+                technique="value-graph normalisation of MIR incl. dispatch arms vs. reference block function"),
+    "C15": dict(level=TV, design="3/C15",
+                text="set/get_stream_param for param 0 and 1 on a symbolic state: exact state delta, round trip, isolation of the other parameter and key; stream32_eq/stream64_eq on two symbolic states must be exactly the canonical conjunction of the required word equalities. x86 and portable builds.",
+                note="Trusted: normalisation laws (n-ary canonical AND, equality as conjunction of bit equalities). Only the valid parameters 0 and 1 are covered.",
+                technique="value-graph normalisation; set-comparison of comparison atoms"),
+    "C01": dict(level=TV, design="3/C01",
+                text="State construction of all 7 aliases (incl. HChaCha with the alias's round count) on symbolic key/nonce, the block function at 4/6/10 double rounds through every dispatch arm, and the full try_apply_keystream pipeline of a fresh cipher on symbolic data for a set of request lengths (quick 1,65,321; thorough 10 lengths, both backends): result must be data XOR the specified keystream. Decides the per-block half of the property for all keys/nonces/data; position bookkeeping over arbitrary histories is C02.",
+                note="Trusted: spec/chacha.py, intrinsic models, normalisation laws. Request lengths are a finite set (each covers all keys, nonces and data contents).",
+                technique="value-graph normalisation of MIR vs. reference (translation validation)"),
 }
 
 REASONS = {}
